@@ -1,16 +1,21 @@
 """C04 -- identity map: one live instance per row per connection on every access path."""
 from tools.props import ormlib as L
-from tools.props.ormlib import run_impl, coq_case, COQ_HEADER, CORR_VO, SOURCES  # noqa (plugin interface)
+from tools.props.ormlib import run_impl, SOURCES  # noqa (plugin interface)
+
+SOURCES = SOURCES + ['sqlobject/joins.py']
+COQ_HEADER = L.COQ_HEADER_PATHS
+CORR_VO = 'Corr/OrmPaths.vo'
+coq_case = L.coq_pcase
 
 PROP = 'C04'
 PROPS_VO = 'Props/C04.vo'
 GENERATORS = {}
-COQ_CASE_TYPE = 'case'
-COQ_AGREE = 'agree'
+COQ_CASE_TYPE = 'pcase'
+COQ_AGREE = 'pagree'
 COQ_SHARD = 40
 REPLAY_KIND = 'history'
 EXHAUSTIVE = {'quick': False, 'thorough': False}
-RULE = ('seeded random histories (3..45 operations) of create/get/select/alternate-id lookup/read/assign/set/sync/expire/destroy/'
+RULE = ('seeded random histories (3..45 operations) of create/get/select/alternate-id lookup/foreign-key traversal/join accessor/read/assign/set/sync/expire/destroy/'
         'drop-reference/cull/expireAll/pickle/unpickle over three classes on one sqlite connection, cache=True and cache=False, '
         'cullFrequency in {2,3,5,100}, cullFraction in {1,2,3}; mostly valid operations plus invalid values, duplicate keys, absent ids '
         'and stale handles. Non-trivial = some operation returned an object for a row the application already held; distinct = distinct operation list.')
@@ -18,12 +23,16 @@ EXPLANATION = ('Theorems over Model/Orm.v (unbounded histories, any cull configu
                'real SQLObject after every operation (outcome with identity tokens, SQL log, tables, passive object state, cache contents) + '
                'identity oracle on the implementation.')
 TRUSTED_BASE = L.TRUSTED_COMMON + [
-    'access paths covered by the model: get, select iteration, alternate-id lookup, unpickling, creation; foreign-key attributes and join '
-    'accessors reach rows through the same SQLObject.get and are exercised by C13, not here',
+    'access paths covered by the model: get, select iteration, alternate-id lookup, unpickling, creation, foreign-key traversal and the '
+    'MultipleJoin accessor (Model/OrmPaths.v: compositions of read/select-ids with SQLObject.get). The foreign-key traversal is run through '
+    'the real main.py _SO_foreignKey on the Int column a (what the generated getter of a ForeignKey column calls); the join through real '
+    'MultipleJoin descriptors on column a. RelatedJoin/SingleJoin/SQL*Join accessors build their results with the same otherClass.get / '
+    'select iteration and are exercised by C13, not here',
 ]
 PROFILE = L.profile(without=['clear', 'rawupdate', 'rawdelete'],
                     weights={'get': 16, 'select': 10, 'byalt': 6, 'drop': 10, 'cull': 5, 'expire': 2, 'expireall': 1,
-                             'destroy': 5, 'pickle': 5, 'unpickle': 6}, p_fault=0.25, fault_ops=('destroy',), freqs=[2, 3, 5, 100])
+                             'destroy': 5, 'pickle': 5, 'unpickle': 6, 'fk': 9, 'join': 8},
+                    p_fault=0.25, fault_ops=('destroy', 'fk', 'join'), freqs=[2, 3, 5, 100])
 
 
 def corpus():
@@ -43,6 +52,12 @@ def corpus():
         # seeded once: a destroySelf whose DELETE fails must not have purged the identity map
         {'cfg': {'cache': True, 'freq': 100, 'frac': 2}, 'ops': [['create', 0, [[1, 100]]], ['fault', 0, ['destroy', 0]], ['get', 0, 1]]},
         {'cfg': {'cache': False, 'freq': 100, 'frac': 2}, 'ops': [['create', 0, [[1, 100]]], ['fault', 0, ['destroy', 0]], ['select', 0, None, None]]},
+        # access paths through another object: a foreign key and a join must hand back the held instances, culled or not
+        {'cfg': {'cache': True, 'freq': 2, 'frac': 1},
+         'ops': [['create', 0, [[1, 100]]], ['create', 1, [[1, 101], [0, 1]]], ['create', 1, [[1, 102], [0, 1]]], ['cull', 1], ['cull', 0],
+                 ['fk', 1, 0], ['join', 0, 1, 1], ['join', 0, 0, None], ['fault', 0, ['join', 0, 1, 0]], ['fault', 1, ['fk', 2, 2]]]},
+        {'cfg': {'cache': False, 'freq': 100, 'frac': 2},
+         'ops': [['create', 2, [[1, 100], [0, 1]]], ['fk', 0, 2], ['join', 0, 2, 0], ['destroy', 0], ['fk', 1, 2], ['join', 1, 2, None]]},
         # cull moves a held object to the weak cache; it must come back
         {'cfg': {'cache': True, 'freq': 2, 'frac': 1},
          'ops': [['create', 0, [[1, 100]]], ['create', 0, [[1, 101]]], ['cull', 0], ['get', 0, 1], ['get', 0, 2], ['select', 0, None, 0]]},
@@ -72,10 +87,10 @@ def returned_objects(info):
         if t == 'unpickle':
             k = st['slots'][-1][0] if st['slots'] and st['slots'][-1] is not None else None
         else:
-            k = core[1]
+            k = core[2] if t == 'fk' else core[1]
         return [(k, v[1], v[2])]
     if v[0] == 'objs':
-        return [(core[1], i, tok) for i, tok in v[1]]
+        return [(core[2] if t == 'join' else core[1], i, tok) for i, tok in v[1]]
     return []
 
 
